@@ -17,7 +17,8 @@ class LField:
     """L(t, x) = L0 + t*L1 + sum_i x_i*Mi + sin(w t)*L2 and pathline x(t) = x0 + v t.
     Serialisable (all coefficients are arrays) so a failing scenario can be replayed."""
 
-    def __init__(self, L0, L1=None, Mx=None, L2=None, w=0.0, x0=None, v=None, scale=1.0, tscale=1.0, torig=0.0, pulse_P=0.0, L3=None):
+    def __init__(self, L0, L1=None, Mx=None, L2=None, w=0.0, x0=None, v=None, scale=1.0, tscale=1.0, torig=0.0, pulse_P=0.0, L3=None,
+                 orb_a=None, orb_b=None, orb_w=0.0):
         z = np.zeros((3, 3))
         self.L0, self.L1, self.L2 = np.array(L0, float), np.array(z if L1 is None else L1, float), np.array(z if L2 is None else L2, float)
         self.Mx = np.zeros((3, 3, 3)) if Mx is None else np.array(Mx, float)
@@ -29,9 +30,18 @@ class LField:
         self.pulse_P = float(pulse_P)  # period of the bump term 4u(1-u) L3, u = (t/P) mod 1: EXACTLY zero at multiples of P (aligned_pulse)
         self.L3 = np.zeros((3, 3)) if L3 is None else np.array(L3, float)
         self.torig = float(torig)    # time origin of the history (model time at which the L1 / L2 / pathline terms start), in compressed time
+        # closed-orbit part of the pathline: x(t) = x0 + v t + a (1 - cos(W t)) + b sin(W t); with v = 0 the particle is back at x0
+        # after every period 2 pi / W although it moves in between (hard.py family closed_orbit)
+        self.orb_a = np.zeros(3) if orb_a is None else np.array(orb_a, float)
+        self.orb_b = np.zeros(3) if orb_b is None else np.array(orb_b, float)
+        self.orb_w = float(orb_w)
 
     def pos(self, t):
-        return self.x0 + self.v * ((t - self.torig) * self.tscale)
+        tt = (t - self.torig) * self.tscale
+        x = self.x0 + self.v * tt
+        if self.orb_w:
+            x = x + self.orb_a * (1.0 - np.cos(self.orb_w * tt)) + self.orb_b * np.sin(self.orb_w * tt)
+        return x
 
     def __call__(self, t, x):
         tt = (t - self.torig) * self.tscale
@@ -43,16 +53,17 @@ class LField:
 
     def scaled(self, k):
         return LField(self.L0, self.L1, self.Mx, self.L2, self.w, self.x0, self.v, scale=self.scale * k, tscale=self.tscale * k,
-                      torig=self.torig / k, pulse_P=self.pulse_P, L3=self.L3)
+                      torig=self.torig / k, pulse_P=self.pulse_P, L3=self.L3, orb_a=self.orb_a, orb_b=self.orb_b, orb_w=self.orb_w)
 
     def rotated(self, Q):
         r = lambda X: Q @ X @ Q.T  # noqa: E731
         Mx = np.einsum("ia,ajk->ijk", Q, np.stack([r(self.Mx[a]) for a in range(3)]))  # x' = Q x
-        return LField(r(self.L0), r(self.L1), Mx, r(self.L2), self.w, Q @ self.x0, Q @ self.v, self.scale, self.tscale, self.torig, self.pulse_P, r(self.L3))
+        return LField(r(self.L0), r(self.L1), Mx, r(self.L2), self.w, Q @ self.x0, Q @ self.v, self.scale, self.tscale, self.torig, self.pulse_P, r(self.L3),
+                      orb_a=Q @ self.orb_a, orb_b=Q @ self.orb_b, orb_w=self.orb_w)
 
     def to_json(self):
         return {k: (getattr(self, k).tolist() if hasattr(getattr(self, k), "tolist") else getattr(self, k))
-                for k in ("L0", "L1", "Mx", "L2", "w", "x0", "v", "scale", "tscale", "torig", "pulse_P", "L3")}
+                for k in ("L0", "L1", "Mx", "L2", "w", "x0", "v", "scale", "tscale", "torig", "pulse_P", "L3", "orb_a", "orb_b", "orb_w")}
 
     def is_constant(self):
         return not (self.L1.any() or self.L2.any() or self.Mx.any() or (self.pulse_P and self.L3.any()))
@@ -320,7 +331,8 @@ def scenario_from_json(d):
     f = d["field"]
     fld = LField(np.array(f["L0"]), np.array(f["L1"]), np.array(f["Mx"]), np.array(f["L2"]), f["w"], np.array(f["x0"]), np.array(f["v"]),
                  f.get("scale", 1.0), f.get("tscale", 1.0), f.get("torig", 0.0), f.get("pulse_P", 0.0),
-                 np.array(f["L3"]) if f.get("L3") is not None else None)
+                 np.array(f["L3"]) if f.get("L3") is not None else None,
+                 orb_a=f.get("orb_a"), orb_b=f.get("orb_b"), orb_w=f.get("orb_w", 0.0))
     sc = {k: v for k, v in d.items() if k not in ("field", "get_regime", "mode", "other", "k", "Q", "subset", "twofold", "variant", "loader",
                                                    "chis", "kwargs", "minerals", "L")}
     sc["field"] = fld
